@@ -462,8 +462,8 @@ impl Arm for C05 {
     }
     fn runs(&self, tier: Tier) -> u64 {
         match tier {
-            Tier::Quick => 1200,
-            Tier::Thorough => 40_000,
+            Tier::Quick => 6000,
+            Tier::Thorough => 150_000,
         }
     }
     fn gen(&self, rng: &mut Rng, tier: Tier, _i: u64) -> Value {
